@@ -86,6 +86,15 @@ def gen(rng, tier):
                                 ['recv', rng.choice([None, 0.35, 2.5])]])
                     for _ in range(rng.randrange(1, 4))]
             consumer[0:0] = aim
+    if cfg['fault'] in ('sdisc', 'sever_final') and rng.random() < 0.3:
+        # aimed: the last event and the final end of the connection arrive
+        # in one burst while a receive() is blocked waiting
+        tf = round(rng.choice([0.05, 0.2, 0.5]), 3)
+        n = rng.choice([1, 1, 2, 3])
+        producer = [[tf, 'emit', n], [tf, cfg['fault'], 0]]
+        consumer = [['recv', rng.choice([None, None, 2.5])]
+                    for _ in range(n + 1)] + consumer[:2]
+        cfg['welcome'] = False
     return {'cfg': cfg, 'consumer': consumer, 'producer': producer}
 
 
